@@ -8,7 +8,7 @@ from ..core import Fail
 PID = "C17"
 RULE = ("closed curves (polygons; mixed-degree curves with degree 1..3 segments) described by from_vertices / "
         "from_ctrlpoints / from_segments (and from_full_curve for polygons given as a degree-1 pynurbs curve): == between "
-        "all descriptions, same vertices (each control point once, in order), segments, box, signed length and area; box asked / move or scale in place / box asked again; box "
+        "all descriptions, same vertices (each control point once, in order), segments, box, signed length and area (also for curves with a deep inward arc whose extreme control point is off the curve); box asked / move or scale in place / box asked again; box "
         "encloses sampled points; sign of float(curve) = orientation; malformed stream: a gap at each junction "
         "(closing one included) of 0.5e-9 (accepted) / 2e-9 and larger (rejected), non-curve arguments; "
         "non-trivial = at least 3 segments; distinct = SHA-1")
@@ -39,6 +39,20 @@ def cases(ctx):
             if rng.random() < 0.4:
                 vs = vs[::-1]
             yield {"k": "poly", "vs": vs, "num": ["frac", "float", "int"][i % 3] if all(x.denominator == 1 for p in vs for x in p) else "frac"}
+    # a rectangle one side of which is a quadratic arc bulging INTO the region, so deeply that its middle control
+    # point lies beyond the opposite side (the extreme control point of the curve is not a point of the curve); all
+    # four directions, both orientations
+    for i in range(ctx.n(12, 120)):
+        w, h = rng.randint(3, 8), rng.randint(3, 8)
+        d = rng.choice([F(1, 2), F(1), F(2), F(5, 2)])              # how far the control point passes the opposite side (< h)
+        if d >= h:
+            d = F(h) / 2
+        j = [[(F(0), F(0)), (F(w), F(0))], [(F(w), F(0)), (F(w), F(h))], [(F(w), F(h)), (F(w, 2), -d), (F(0), F(h))], [(F(0), F(h)), (F(0), F(0))]]
+        rot = [lambda p: p, lambda p: (-p[1], p[0]), lambda p: (-p[0], -p[1]), lambda p: (p[1], -p[0])][i % 4]
+        j = [[rot(p) for p in sg] for sg in j]
+        if i % 8 >= 4:
+            j = U.reverse_jordan(j)
+        yield {"k": "mixed", "j": j, "num": "frac" if i % 3 == 0 else "float", "notch": True}
     for i in range(ctx.n(40, 600)):
         vs = G.lattice_polygon(rng, R=9)
         yield {"k": "gap", "vs": vs, "at": rng.randrange(len(vs)), "gap": rng.choice([F(1, 2 * 10 ** 9), F(2, 10 ** 9), F(1, 1000), F(1)]),
